@@ -291,6 +291,8 @@ var ledgerSpecs = []ledgerSpec{
 			{"diamond-any-order", ledger.Cfg{Nodes: []string{"G", "N1"}, Supply: sp(10, 0), Menu: nil, Hidden: []ledger.TxSpec{tx("side", "R", "B", 1, 0)}, Tick: true, Prefix: diamond, Props: only("C13")}, d + 2, 0, 0},
 			{"chain3-any-order", ledger.Cfg{Nodes: []string{"G", "N1"}, Supply: sp(10, 0), Menu: nil, Tick: true, Dup: true, Prefix: chain, Props: only("C13")}, d, 0, 0},
 			{"siblings+stranger-any-order", ledger.Cfg{Nodes: []string{"G", "N1"}, Supply: sp(10, 0), Menu: nil, Hidden: []ledger.TxSpec{sib("q"), sib("c1"), sib("c2"), sib("x")}, Tick: true, Prefix: siblings, Props: only("C13")}, d + 4, 0, 0},
+			// time passes while a vertex is parked (the parent arrives minutes later): nothing expires with time
+			{"chain3-any-order+time-passes", ledger.Cfg{Nodes: []string{"G", "N1"}, Supply: sp(10, 0), Menu: nil, Tick: true, Wait: true, Prefix: chain, Props: only("C13")}, d, 0, 0},
 			{"chain3+local-proposal", ledger.Cfg{Nodes: []string{"G", "N1"}, Supply: sp(10, 0), Menu: []ledger.TxSpec{tx("loc", "R", "B", 1, 0)}, MaxProposeNodes: 1, Tick: true, Prefix: chain, Props: only("C13")}, d - 1, 0, 0},
 		},
 			ledgerRun{"chain4-any-order+dup", ledger.Cfg{Nodes: []string{"G", "N1"}, Supply: sp(10, 0), Menu: nil, Tick: true, Dup: true, Prefix: []string{"P:0:p1", "P:0:p2", "P:0:p3", "P:0:p4"}, Props: only("C13")}, 12, 0, 0},
